@@ -65,6 +65,8 @@ class MemStateBackend(BaseStateBackend[Params, Result]):
         self._workflow_types.clear()
         self._workflow_runs.clear()
         self._workflow_sub_invocations.clear()
+        self._workflow_data.clear()
+        self._runner_contexts.clear()
 
     def _upsert_invocations(
         self, entries: list[tuple["InvocationDTO", "CallDTO"]]
